@@ -7,7 +7,7 @@ git apply "$P" || { echo "patch does not apply"; exit 2; }
 cd /verif
 ./check $ID $TIER > /tmp/seedtest.$$.log 2>&1; RC=$?
 git -C /repo checkout -- . ; git -C /repo clean -fdq
-grep -E "^VIOLATION|^KNOWN|^INFRA|$ID $TIER:" /tmp/seedtest.$$.log | cut -c1-300 | head -12
-grep -A2 "^VIOLATION" /tmp/seedtest.$$.log | grep -E "signature|what" | cut -c1-300 | head -6
+grep -aE "^VIOLATION|^KNOWN|^INFRA|$ID $TIER:" /tmp/seedtest.$$.log | cut -c1-300 | head -12
+grep -a -A2 "^VIOLATION" /tmp/seedtest.$$.log | grep -aE "signature|what" | cut -c1-300 | head -6
 rm -f /tmp/seedtest.$$.log
 echo "exit=$RC"
